@@ -1169,9 +1169,9 @@ func opSources(o *OpRecord) []string {
 	switch o.Op.Kind {
 	case "script":
 		switch o.Op.Tpl {
-		case tplWorld, tplSetAccountMeta, tplRaw:
+		case tplWorld, tplSetAccountMeta, tplRaw, tplArith, tplPortionVar, tplMetaVar:
 			return nil
-		case tplOrdered, tplMax:
+		case tplOrdered, tplMax, tplOrderedVars:
 			return []string{acctName(o.Op.Src), acctName(o.Op.Src2)}
 		case tplBalance:
 			return []string{acctName(o.Op.Src2)}
